@@ -426,6 +426,58 @@ def check_mode(ctx, a, b, mode, kw, cfg):
     return runs
 
 
+def interference_mappings():
+    """default_mapping arguments an unrelated caller might pass; they name types of the convertor table
+    (and frozenset, which is in no row: a later plain to_json() must still raise for it)"""
+    import decimal
+    from deepdiff.helper import SetOrdered
+    return [
+        {bytes: lambda x: x.hex(), type: lambda t: t.__module__ + "." + t.__qualname__},
+        {set: lambda x: "set:" + repr(sorted(x, key=repr)), decimal.Decimal: str},
+        {SetOrdered: lambda x: ["SetOrdered"] + list(x), bytes: lambda x: "bytes"},
+        {frozenset: lambda x: sorted(x, key=repr), type: lambda t: "T"},
+    ]
+
+
+def check_history(ctx, a, b, mode, runs, cfg):
+    """to_json() of a comparison is a function of the comparison alone: an unrelated
+    to_json(default_mapping=...) / json_dumps(default_mapping=...) in between must not change it"""
+    from deepdiff import DeepDiff
+    from deepdiff.serialization import json_dumps
+
+    def snap(d):
+        try:
+            return ["ok", d.to_json()]
+        except Exception as e:
+            return ["raise", type(e).__name__]
+
+    maps = interference_mappings()
+    for verbose, (dt, dr) in runs.items():
+        if verbose == 0:
+            continue
+        before = [snap(dt), snap(dr)]
+        m = ctx.rng.choice(maps)
+        how = ctx.rng.choice(["other-diff", "same-diff", "json_dumps"])
+        try:
+            if how == "other-diff":
+                DeepDiff({"x": b"\x00", "s": {1}, "t": 1, "f": frozenset([1])}, {"x": b"\x01", "s": {2}, "t": "1", "n": 0, "f": frozenset([2])},
+                         verbose_level=2).to_json(default_mapping=m)
+            elif how == "same-diff":
+                dt.to_json(default_mapping=m)
+            else:
+                json_dumps({"v": [b"ab", {1, 2}, int, frozenset([3])]}, default_mapping=m)
+        except Exception:
+            pass
+        after = [snap(dt), snap(dr)]
+        ctx.count("history:" + how)
+        if before != after:
+            ctx.fail(dict(t1=repr(a), t2=repr(b), mode=mode, clause="to_json depends on an earlier default_mapping call", verbose=verbose,
+                          interference=how, mapping_types=sorted(t.__name__ for t in m), before=before[0], after=after[0], **cfg),
+                     "to_json() changed after an unrelated %s with default_mapping for %s: %r -> %r" % (
+                         how, sorted(t.__name__ for t in m), before[0], after[0]))
+            break
+
+
 def text_pairs_eq(d1, d2):
     p1, p2 = text_pairs(d1), text_pairs(d2)
     if sorted(p1.keys()) != sorted(p2.keys()):
@@ -681,6 +733,7 @@ def one_pair(ctx, t1, t2, cases, corr=True, iocases=None, repcases=None):
             kw["threshold_to_diff_deeper"] = thr
             cfg["thr"] = thr
         runs = check_mode(ctx, a, b, mode, kw, cfg)
+        check_history(ctx, a, b, mode, runs, cfg)     # before the correspondence cases: they must agree with the model afterwards too
         if mode == "ordered" and corr:
             if D.in_model_guard(a, b) and repr_in_model(a, b):
                 for verbose, (dt, dr) in runs.items():
